@@ -16,6 +16,7 @@ import Manticore.Model.SmbCmd
 import Manticore.Model.SmbCodecs
 import Manticore.Spec.Cifs
 import Manticore.Lemmas.SmbConforms
+import Manticore.Lemmas.SmbConformsExt
 import Manticore.Lemmas.SmbNested
 namespace Manticore.C05
 open Manticore Manticore.SmbIR Manticore.Gen.SmbCommands
@@ -157,6 +158,135 @@ theorem conforms_sound_std (c : Cmd) (hc : Conforms c = true)
   · by_cases h2 : typ = "SMB_STRING"
     · subst h2; exact SmbCodecs.smb_string_conforms_at v' (hfmt b f hm v' hv)
     · exact (std_nested_conforms_other typ h1 h2).at v'
+
+/-! ## beyond the straight-line fragment: loops over list fields, one optional parameter field -/
+
+/-- **`ConformsLists` is sound**, sharpest form.  For every command whose marshal program passes the static
+    check — `Conforms`, and nothing but straight-line statements and `range` loops over declared integer
+    arrays / lists of a nested structure —, every codec table and *all* field values: whenever the MS-CIFS
+    encoder for structures with list fields (`Spec.Cifs.encodeLists`: an array is the concatenation of its
+    elements' encodings, everything else as in `Spec.Cifs.encode`) speaks on the command as `Marshal` leaves
+    it, the bytes the code emits are its bytes.  The nested encoders of the non-list fields have to conform at
+    the values the fields hold after `Marshal`; those of list elements on the element itself
+    (`NestedConformsIn`: the loop marshals a copy, the command keeps its elements).  Outside `be:AndXOffset`. -/
+theorem conforms_lists_sound_at (C : Codecs) (c : Cmd) (hc : ConformsLists c = true)
+    (env : Env) (bs : Bytes) (env' : Env) (sb : Bytes)
+    (hn : ∀ b f typ, MStmt.sub b f typ ∈ c.marshal → ∀ v', env'.get f = some (.t v') →
+      NestedConformsAt C typ v')
+    (hnl : ∀ b f typ, MStmt.forSub b f typ ∈ c.marshal → NestedConformsIn C typ)
+    (hbe : andxOffsetBigEndian c.isAndX env' = false)
+    (he : encodeCmd C c env = .ok bs) (ha : envAfterMarshal C c env = .ok env')
+    (hs : Spec.Cifs.encodeLists c env' = some sb) : bs = sb :=
+  conformsLists_sound_at C c hc env bs env' sb hn hnl hbe he ha hs
+
+/-- **`ConformsLists` is sound** with respect to the independent MS-CIFS encoder `Spec.Cifs.encodeLists`:
+    side conditions as in `conforms_sound` (nested encoders that conform; the specification evaluated on the
+    command after `Marshal`; outside the finding `be:AndXOffset`). -/
+theorem conforms_lists_sound (C : Codecs) (c : Cmd) (hc : ConformsLists c = true)
+    (hn : ∀ b f typ, MStmt.sub b f typ ∈ c.marshal → NestedConforms C typ)
+    (hnl : ∀ b f typ, MStmt.forSub b f typ ∈ c.marshal → NestedConformsIn C typ)
+    (env : Env) (bs : Bytes) (env' : Env) (sb : Bytes)
+    (hbe : andxOffsetBigEndian c.isAndX env' = false)
+    (he : encodeCmd C c env = .ok bs) (ha : envAfterMarshal C c env = .ok env')
+    (hs : Spec.Cifs.encodeLists c env' = some sb) : bs = sb :=
+  conformsLists_sound_at C c hc env bs env' sb (fun b f typ hm v' _ => (hn b f typ hm).at v') hnl hbe he ha hs
+
+/-- **`ConformsOptional` is sound**, sharpest form.  For every command whose marshal program passes the
+    static check — `Conforms`, exactly one `if c.F != 0 { … }` whose body emits `F` and only `F` into the
+    parameter block, no other emission of `F`, the rest straight-line or loops —, every codec table and *all*
+    field values: whenever `Spec.Cifs.encodeOptional` speaks (MS-CIFS gives the request two forms, WordCount
+    telling which: the declared layout without `F` when `F` is zero, the full declared layout otherwise — `F`
+    at its declared width, little-endian), the bytes the code emits are its bytes. -/
+theorem conforms_optional_sound_at (C : Codecs) (c : Cmd) (hc : ConformsOptional c = true)
+    (env : Env) (bs : Bytes) (env' : Env) (sb : Bytes)
+    (hn : ∀ b f typ, MStmt.sub b f typ ∈ c.marshal → ∀ v', env'.get f = some (.t v') →
+      NestedConformsAt C typ v')
+    (hnl : ∀ b f typ, MStmt.forSub b f typ ∈ c.marshal → NestedConformsIn C typ)
+    (hbe : andxOffsetBigEndian c.isAndX env' = false)
+    (he : encodeCmd C c env = .ok bs) (ha : envAfterMarshal C c env = .ok env')
+    (hs : Spec.Cifs.encodeOptional c env' = some sb) : bs = sb :=
+  conformsOptional_sound_at C c hc env bs env' sb hn hnl hbe he ha hs
+
+/-- **`ConformsOptional` is sound** with respect to `Spec.Cifs.encodeOptional`, side conditions as in
+    `conforms_sound`. -/
+theorem conforms_optional_sound (C : Codecs) (c : Cmd) (hc : ConformsOptional c = true)
+    (hn : ∀ b f typ, MStmt.sub b f typ ∈ c.marshal → NestedConforms C typ)
+    (hnl : ∀ b f typ, MStmt.forSub b f typ ∈ c.marshal → NestedConformsIn C typ)
+    (env : Env) (bs : Bytes) (env' : Env) (sb : Bytes)
+    (hbe : andxOffsetBigEndian c.isAndX env' = false)
+    (he : encodeCmd C c env = .ok bs) (ha : envAfterMarshal C c env = .ok env')
+    (hs : Spec.Cifs.encodeOptional c env' = some sb) : bs = sb :=
+  conformsOptional_sound_at C c hc env bs env' sb (fun b f typ hm v' _ => (hn b f typ hm).at v') hnl hbe he ha hs
+
+/-- the predicates put a command inside the fragment its encoder covers: `Spec.Cifs.encodeLists` /
+    `Spec.Cifs.encodeOptional` are never silent because of the *shape* of a program that passed -/
+theorem conforms_ext_shapes (c : Cmd) :
+    (ConformsLists c = true → Spec.Cifs.loopsOnly c.marshal = true) ∧
+    (ConformsOptional c = true → (Spec.Cifs.optionalFields c.marshal).length = 1 ∧
+      Spec.Cifs.loopsOnly (Spec.Cifs.withoutOptional c.marshal) = true) := by
+  constructor
+  · intro h
+    simp only [ConformsLists, Bool.and_eq_true] at h
+    exact h.1.2
+  · intro h
+    simp only [ConformsOptional, Bool.and_eq_true, beq_iff_eq] at h
+    exact ⟨h.1.1.2, loopsOnly_withoutOptional _ _ h.1.2⟩
+
+/-- **List elements that conform**, for all values, on the element handed to the encoder:
+    LOCKING_ANDX_RANGE64; and, vacuously, SMB_DIRECTORY_INFORMATION (no MS-CIFS encoding in
+    `Spec.Cifs.nestedEnc`).  By `list_element_types` these are the only nested structures a `Marshal`
+    loops over. -/
+theorem std_nested_list_conforms :
+    ∀ typ ∈ ["LOCKING_ANDX_RANGE64", "SMB_DIRECTORY_INFORMATION"], NestedConformsIn SmbCodecs.std typ := by
+  intro typ h
+  simp only [List.mem_cons, List.not_mem_nil, or_false] at h
+  rcases h with rfl | rfl
+  · exact SmbCodecs.range64_conforms_in
+  · exact SmbCodecs.silent_conforms_in _ _ SmbCodecs.dir_info_silent
+
+private theorem std_list_hyp (c : Cmd) (hmem : c ∈ commands) :
+    ∀ b f typ, MStmt.forSub b f typ ∈ c.marshal → NestedConformsIn SmbCodecs.std typ := by
+  intro b f typ hm
+  have h := List.all_eq_true.mp list_element_types c hmem
+  have h2 := List.all_eq_true.mp h _ hm
+  exact std_nested_list_conforms typ (List.contains_iff_mem.1 h2)
+
+private theorem std_sub_hyp (c : Cmd) (env' : Env)
+    (hattr : ∀ b f, MStmt.sub b f "SMB_FILE_ATTRIBUTES" ∉ c.marshal)
+    (hfmt : ∀ b f, MStmt.sub b f "SMB_STRING" ∈ c.marshal →
+      ∀ v', env'.get f = some (.t v') → v'.1.head? ≠ some 3) :
+    ∀ b f typ, MStmt.sub b f typ ∈ c.marshal → ∀ v', env'.get f = some (.t v') →
+      NestedConformsAt SmbCodecs.std typ v' := by
+  intro b f typ hm v' hv
+  by_cases h1 : typ = "SMB_FILE_ATTRIBUTES"
+  · subst h1; exact absurd hm (hattr b f)
+  · by_cases h2 : typ = "SMB_STRING"
+    · subst h2; exact SmbCodecs.smb_string_conforms_at v' (hfmt b f hm v' hv)
+    · exact (std_nested_conforms_other typ h1 h2).at v'
+
+/-- **The library's commands with list fields, all values**: a regenerated command that passes `ConformsLists`,
+    marshalled with the library's own nested encoders, emits the bytes of `Spec.Cifs.encodeLists` outside the
+    three recorded findings (as `conforms_sound_std`). -/
+theorem conforms_lists_sound_std (c : Cmd) (hmem : c ∈ commands) (hc : ConformsLists c = true)
+    (env : Env) (bs : Bytes) (env' : Env) (sb : Bytes)
+    (hattr : ∀ b f, MStmt.sub b f "SMB_FILE_ATTRIBUTES" ∉ c.marshal)
+    (hfmt : ∀ b f, MStmt.sub b f "SMB_STRING" ∈ c.marshal →
+      ∀ v', env'.get f = some (.t v') → v'.1.head? ≠ some 3)
+    (hbe : andxOffsetBigEndian c.isAndX env' = false)
+    (he : encodeCmd SmbCodecs.std c env = .ok bs) (ha : envAfterMarshal SmbCodecs.std c env = .ok env')
+    (hs : Spec.Cifs.encodeLists c env' = some sb) : bs = sb :=
+  conformsLists_sound_at _ c hc env bs env' sb (std_sub_hyp c env' hattr hfmt) (std_list_hyp c hmem) hbe he ha hs
+
+/-- **The library's commands with an optional parameter field, all values** (as `conforms_sound_std`) -/
+theorem conforms_optional_sound_std (c : Cmd) (hmem : c ∈ commands) (hc : ConformsOptional c = true)
+    (env : Env) (bs : Bytes) (env' : Env) (sb : Bytes)
+    (hattr : ∀ b f, MStmt.sub b f "SMB_FILE_ATTRIBUTES" ∉ c.marshal)
+    (hfmt : ∀ b f, MStmt.sub b f "SMB_STRING" ∈ c.marshal →
+      ∀ v', env'.get f = some (.t v') → v'.1.head? ≠ some 3)
+    (hbe : andxOffsetBigEndian c.isAndX env' = false)
+    (he : encodeCmd SmbCodecs.std c env = .ok bs) (ha : envAfterMarshal SmbCodecs.std c env = .ok env')
+    (hs : Spec.Cifs.encodeOptional c env' = some sb) : bs = sb :=
+  conformsOptional_sound_at _ c hc env bs env' sb (std_sub_hyp c env' hattr hfmt) (std_list_hyp c hmem) hbe he ha hs
 
 /-! ## header algebra -/
 
@@ -353,6 +483,88 @@ example :
     encodeCmd SmbCodecs.std c env = .ok [2, 1, 0, 1, 0, 0, 0] ∧
     envAfterMarshal SmbCodecs.std c env = .ok env ∧
     Spec.Cifs.encode c env = some [3, 1, 0, 1, 0, 0, 0, 0, 0] := by
+  decide +kernel
+
+/-! ## non-vacuity of the extended fragments -/
+
+/-- `conforms_lists_sound_std` is not vacuous: a LOCKING_ANDX request with one unlock and two lock ranges
+    (and an AndX block whose offset bytes are equal) — `ConformsLists` holds, `Marshal` leaves the fields as they
+    are, and the code's bytes are those of `Spec.Cifs.encodeLists`: WordCount 8, the AndX block, the six
+    parameter fields little-endian, ByteCount 60, the three 20-byte ranges in list order -/
+example :
+    let r (p o l : Nat) : Tup := ([p, 0, 0, o, 0, l], [])
+    let env : Env := [("FID", .n 0x1234), ("TypeOfLock", .n 0x10), ("NewOpLockLevel", .n 0), ("Timeout", .n 0x01020304),
+      ("NumberOfRequestedUnlocks", .n 1), ("NumberOfRequestedLocks", .n 2),
+      ("Unlocks", .ts [r 0x0a0b 1 2]), ("Locks", .ts [r 0x0c0d 3 4, r 0x0e0f 5 6]), (andxField, .ns [0x24, 0, 0x0101])]
+    let rb (p0 p1 o l : UInt8) : Bytes := [p0, p1, 0, 0, 0, 0, 0, 0, o, 0, 0, 0, 0, 0, 0, 0, l, 0, 0, 0]
+    let wire : Bytes := [8, 0x24, 0, 1, 1, 0x34, 0x12, 0x10, 0, 4, 3, 2, 1, 1, 0, 2, 0, 60, 0] ++
+      rb 0x0b 0x0a 1 2 ++ rb 0x0d 0x0c 3 4 ++ rb 0x0f 0x0e 5 6
+    cmd_LockingAndxRequest ∈ commands ∧ ConformsLists cmd_LockingAndxRequest = true ∧
+    (layoutM cmd_LockingAndxRequest.marshal).isNone = true ∧
+    andxOffsetBigEndian true env = false ∧
+    encodeCmd SmbCodecs.std cmd_LockingAndxRequest env = .ok wire ∧
+    envAfterMarshal SmbCodecs.std cmd_LockingAndxRequest env = .ok env ∧
+    Spec.Cifs.encode cmd_LockingAndxRequest env = none ∧
+    Spec.Cifs.encodeLists cmd_LockingAndxRequest env = some wire := by
+  refine ⟨by simp [commands, chunk0, chunk1, chunk2, chunk3], by decide +kernel, by decide +kernel, by decide +kernel,
+    by decide +kernel, by decide +kernel, by decide +kernel, by decide +kernel⟩
+
+/-- an integer list: the `Setup` words of a TRANSACTION request go out little-endian one after the other,
+    in the parameter block behind `SetupCount` / `Reserved3` -/
+example :
+    let env : Env := [("TotalParameterCount", .n 0), ("TotalDataCount", .n 0), ("MaxParameterCount", .n 0), ("MaxDataCount", .n 0),
+      ("MaxSetupCount", .n 0), ("Reserved1", .n 0), ("Flags", .n 0), ("Timeout", .n 0), ("Reserved2", .n 0),
+      ("ParameterCount", .n 0), ("ParameterOffset", .n 0), ("DataCount", .n 0), ("DataOffset", .n 0),
+      ("SetupCount", .n 2), ("Reserved3", .n 0), ("Setup", .ns [0x0102, 0x0304]), ("Name", .t ([4, 0], [[0x41]])),
+      ("Pad1", .b []), ("Trans_Parameters", .b []), ("Pad2", .b []), ("Trans_Data", .b [])]
+    let wire : Bytes := [16] ++ List.replicate 26 0 ++ [2, 0, 0x02, 0x01, 0x04, 0x03] ++ [3, 0, 4, 0x41, 0]
+    ConformsLists cmd_TransactionRequest = true ∧
+    encodeCmd SmbCodecs.std cmd_TransactionRequest env = .ok wire ∧
+    envAfterMarshal SmbCodecs.std cmd_TransactionRequest env = .ok env ∧
+    Spec.Cifs.encodeLists cmd_TransactionRequest env = some wire := by
+  decide +kernel
+
+/-- `conforms_optional_sound_std` is not vacuous, in both forms: a WRITE_ANDX request with `OffsetHigh` zero
+    goes out in the 12-word form, with `OffsetHigh = 0x01020304` in the 14-word form with the field last in
+    the parameter block, full width, little-endian -/
+example :
+    let env (hi : Nat) : Env := [("FID", .n 0x1234), ("Offset", .n 0), ("Timeout", .n 0), ("WriteMode", .n 0), ("Remaining", .n 0),
+      ("Reserved", .n 0), ("DataLength", .n 2), ("DataOffset", .n 0x40), ("OffsetHigh", .n hi), ("Pad", .n 0), ("Data", .b [0xAA, 0xBB])]
+    let head : Bytes := [0xFF, 0, 0, 0, 0x34, 0x12, 0, 0, 0, 0, 0, 0, 0, 0, 0, 0, 0, 0, 0, 0, 2, 0, 0x40, 0]
+    let tail : Bytes := [3, 0, 0, 0xAA, 0xBB]
+    cmd_WriteAndxRequest ∈ commands ∧ ConformsOptional cmd_WriteAndxRequest = true ∧
+    encodeCmd SmbCodecs.std cmd_WriteAndxRequest (env 0) = .ok ([12] ++ head ++ tail) ∧
+    Spec.Cifs.encodeOptional cmd_WriteAndxRequest (prologueEnv true (env 0)) = some ([12] ++ head ++ tail) ∧
+    envAfterMarshal SmbCodecs.std cmd_WriteAndxRequest (env 0) = .ok (prologueEnv true (env 0)) ∧
+    encodeCmd SmbCodecs.std cmd_WriteAndxRequest (env 0x01020304) = .ok ([14] ++ head ++ [4, 3, 2, 1] ++ tail) ∧
+    Spec.Cifs.encodeOptional cmd_WriteAndxRequest (prologueEnv true (env 0x01020304)) = some ([14] ++ head ++ [4, 3, 2, 1] ++ tail) ∧
+    Spec.Cifs.encodeLists cmd_WriteAndxRequest (prologueEnv true (env 0)) = none := by
+  refine ⟨by simp [commands, chunk0, chunk1, chunk2, chunk3, chunk4, chunk5, chunk6, chunk7], by decide +kernel, by decide +kernel, by decide +kernel,
+    by decide +kernel, by decide +kernel, by decide +kernel, by decide +kernel⟩
+
+/-- the optional array of WRITE_AND_CLOSE: all three reserved ULONGs or none -/
+example :
+    let env (r : List Nat) : Env := [("FID", .n 1), ("CountOfBytesToWrite", .n 1), ("WriteOffsetInBytes", .n 0),
+      ("LastWriteTime", .t ([0, 0], [])), ("Reserved", .ns r), ("Pad", .n 0), ("Data", .b [0xAA])]
+    let head : Bytes := [1, 0, 1, 0, 0, 0, 0, 0, 0, 0, 0, 0, 0, 0, 0, 0]
+    ConformsOptional cmd_WriteAndCloseRequest = true ∧
+    encodeCmd SmbCodecs.std cmd_WriteAndCloseRequest (env [0, 0, 0]) = .ok ([8] ++ head ++ [2, 0, 0, 0xAA]) ∧
+    Spec.Cifs.encodeOptional cmd_WriteAndCloseRequest (env [0, 0, 0]) = some ([8] ++ head ++ [2, 0, 0, 0xAA]) ∧
+    encodeCmd SmbCodecs.std cmd_WriteAndCloseRequest (env [0, 7, 0]) = .ok ([14] ++ head ++ [0, 0, 0, 0, 7, 0, 0, 0, 0, 0, 0, 0] ++ [2, 0, 0, 0xAA]) ∧
+    Spec.Cifs.encodeOptional cmd_WriteAndCloseRequest (env [0, 7, 0]) = some ([14] ++ head ++ [0, 0, 0, 0, 7, 0, 0, 0, 0, 0, 0, 0] ++ [2, 0, 0, 0xAA]) := by
+  decide +kernel
+
+/-- the shape clause is needed: `Conforms` alone accepts `if c.B != 0 { emit A }` (it sees an emission
+    of `B` in declaration order), and the code's bytes are not the MS-CIFS bytes.  (`typedLoop` is used by the
+    proof only: where it fails, `Spec.Cifs.encField` has no encoding for the value and the encoder is silent.) -/
+example :
+    let c := toy [("A", "types.USHORT"), ("B", "types.USHORT")]
+      [.int .P 2 .le "A", .ifNonZero "B" [.int .P 2 .le "A"]]
+    let env : Env := [("A", .n 1), ("B", .n 2)]
+    Conforms c = true ∧ ConformsOptional c = false ∧
+    encodeCmd SmbCodecs.std c env = .ok [2, 1, 0, 1, 0, 0, 0] ∧
+    envAfterMarshal SmbCodecs.std c env = .ok env ∧
+    Spec.Cifs.encodeOptional c env = some [2, 1, 0, 2, 0, 0, 0] := by
   decide +kernel
 
 end Manticore.C05
